@@ -135,6 +135,37 @@ class SStr:
         return f"<SStr {self.path}>"
 
 
+class SDigits(SStr):
+    """A string of KNOWN length whose characters are known characters or symbolic decimal
+    digits (atoms): the abstract value of a regex group `\\d{n}` for a chosen n.  int() of it is
+    the exact polynomial sum(d_i * 10^(n-i)); slicing, padding and len() are exact."""
+
+    def __init__(self, path, chars):
+        SStr.__init__(self, path)
+        self.chars = list(chars)        # each: ("c", char) known character | ("d", atom name)
+        if all(k == "c" for k, _ in self.chars):
+            self.known = "".join(v for _, v in self.chars)
+
+    @staticmethod
+    def symbolic(path, n):
+        return SDigits(path, [("d", f"{path}#{i + 1}") for i in range(n)])
+
+    def value(self):
+        out = Poly.const(0)
+        n = len(self.chars)
+        for i, (k, v) in enumerate(self.chars):
+            w = Poly.const(10 ** (n - 1 - i))
+            if k == "d":
+                out = out.add(Poly.atom(v).mul(w))
+            elif v.isdigit():
+                out = out.add(Poly.const(int(v)).mul(w))
+            else:
+                raise AnalysisError(f"symeval: int() of a digit string containing {v!r}")
+        if not self.chars:
+            raise AnalysisError("symeval: int('')")
+        return out
+
+
 class SList:
     def __init__(self, path, items=None):
         self.path = path
@@ -176,7 +207,11 @@ class SMatch:
                 return name
         return g
 
+    overrides = None        # {group name: value} chosen by a rule (e.g. a group of n symbolic digits)
+
     def group(self, g):
+        if self.overrides and self.group_name(g) in self.overrides:
+            return self.overrides[self.group_name(g)]
         s = SStr(f"{self.tag}.g<{self.group_name(g)}>")
         s.group_of = (self, self.group_name(g))
         return s
@@ -524,6 +559,8 @@ class SymEvaluator:
             return v.const_value() != 0
         if isinstance(v, SNone):
             return False
+        if isinstance(v, SDigits):
+            return bool(v.chars)
         if isinstance(v, SStr) and v.known is not None:
             return bool(v.known)
         if isinstance(v, str):
@@ -794,7 +831,9 @@ class SymEvaluator:
             return a.div(b)
         if isinstance(op, ast.Pow):
             if a.is_const() and b.is_const() and b.const_value().denominator == 1:
-                return Poly.const(a.const_value() ** int(b.const_value()), a.isfloat or b.isfloat)
+                e_ = int(b.const_value())
+                # int ** negative int is a float in Python
+                return Poly.const(a.const_value() ** e_, a.isfloat or b.isfloat or e_ < 0)
             raise AnalysisError("symeval: symbolic power")
         if isinstance(op, ast.FloorDiv):
             if b.is_const() and a.is_const():
@@ -851,6 +890,8 @@ class SymEvaluator:
                 return int(v.const_value())
             raise AnalysisError("symeval: symbolic slice bound")
         lo, hi = c(lo), c(hi)
+        if isinstance(base, SDigits):
+            return SDigits(f"{base.path}[{'' if lo is None else lo}:{'' if hi is None else hi}]", base.chars[lo:hi])
         if isinstance(base, SStr):
             if base.known is not None:
                 return SStr(repr(base.known[lo:hi]), known=base.known[lo:hi])
@@ -1066,6 +1107,8 @@ class SymEvaluator:
     def _builtin(self, name, args, kw, node):
         if name == "int":
             v = args[0]
+            if isinstance(v, SDigits):
+                return v.value()
             if isinstance(v, SStr):
                 if v.known is not None:
                     return Poly.const(int(v.known))
@@ -1110,6 +1153,10 @@ class SymEvaluator:
             pv = _num(args[0])
             return Poly.atom(f"abs[{pv.show()}]", pv.isfloat, pv.rounds)
         if name == "len":
+            if isinstance(args[0], SDigits):
+                return Poly.const(len(args[0].chars))
+            if isinstance(args[0], SStr) and args[0].known is not None:
+                return Poly.const(len(args[0].known))
             return Poly.atom(f"len({_show(args[0])})")
         if name == "bool":
             return Cmp(f"truthy({_show(args[0])})")
@@ -1226,6 +1273,13 @@ class SymEvaluator:
                     return SStr(repr(getattr(known, attr)(*[a.known for a in args])),
                                 known=getattr(known, attr)(*[a.known for a in args]))
                 return SStr(f"{path}.{attr}({', '.join(_show(a) for a in args)})")
+            if isinstance(base, SDigits) and attr in ("ljust", "rjust", "zfill") and base.known is None \
+                    and all(_concrete(a) is not _NO for a in args):
+                width = int(_concrete(args[0]))
+                fill = "0" if attr == "zfill" else (_concrete(args[1]) if len(args) > 1 else " ")
+                pad = [("c", fill)] * max(0, width - len(base.chars))
+                chars = base.chars + pad if attr == "ljust" else pad + base.chars
+                return SDigits(f"{base.path}.{attr}({', '.join(_show(a) for a in args)})", chars)
             if attr in ("replace", "ljust", "rjust", "zfill", "center"):
                 if known is not None and all(_concrete(a) is not _NO for a in args):
                     r = getattr(known, attr)(*[_concrete(a) for a in args])
